@@ -86,7 +86,10 @@ var plainNames = []string{"a", "b", "c", "d", "e", "foo", "bar", "baz", "k1", "k
 var numPool = []string{"0", "-0", "1", "2", "3", "1.0", "1e400", "1E+2", "12345678901234567890123", "-1.5e-3", "10",
 	"100", "2.50", "0.1", "-7", "1e2", "100.0", "0.10"}
 var strPool = []string{"", "s", "t", "<>&", "a\"b", "back\\slash", "tab\t", " x", "é", "😀", "line\n", "/", "~",
-	"null", "0", "x<y", " ", "\x7f", "\x01", "long string with spaces"}
+	"null", "0", "x<y", " ", "\x7f", "\x01", "long string with spaces",
+	// code points at the encoding boundaries (UTF-8 lengths, surrogate arithmetic)
+	"\u007f\u0080", "\u07ff\u0800", "\ud7ff\ue000", "\uffff", "\U00010000", "\U000103ff", "\U0001f400", "\U0010fc00", "\U0010ffff",
+	"\U00020000x", "\ufffd"}
 
 type genCfg struct {
 	depth     int
